@@ -66,7 +66,13 @@ def row_of(skind, ckind, i):
     if ckind == "raw":
         return b"xyz%d" % i
     if ckind == "nonobject":
-        # truthy and falsy non-object JSON values (falsy ones added after seeded change C32-a)
+        # non-object JSON values.  Successive tables cycle through all-falsy, all-truthy and mixed
+        # rows (a table in which *every* row is falsy was needed to expose seeded change C32-a)
+        v = _NONOBJ["n"] % 3
+        if v == 0:
+            return ([], 0, "", False)[i % 4]
+        if v == 1:
+            return ([1, i], "abc", 7)[i % 3]
         return ([1, i], [], 0, "", False, "abc", 7)[i % 7]
     if ckind == "other":
         return {"x": i} if struct else {"foo": i}
@@ -79,8 +85,13 @@ def row_of(skind, ckind, i):
     raise ValueError(ckind)
 
 
+_NONOBJ = {"n": 0}
+
+
 def set_kind(tab, table, skind, ckind):
     import tskit
+    if ckind == "nonobject":
+        _NONOBJ["n"] += 1
     tab.drop_metadata()
     sch = schema_of(skind, table)
     if sch is not None:
